@@ -35,6 +35,8 @@ type Case struct {
 	Nest int `json:"nest,omitempty"`
 	// Procs > 0: the case runs with runtime.GOMAXPROCS(Procs) (chunked/parallel fast paths depend on it)
 	Procs int `json:"procs,omitempty"`
+	// Flip: while the case runs another goroutine keeps changing runtime.GOMAXPROCS between 2 and 7 (Procs is ignored)
+	Flip bool `json:"flip,omitempty"`
 }
 
 // procsMu serialises the cases that change GOMAXPROCS (parallel copies of a case must not restore each other's setting).
@@ -53,9 +55,9 @@ const (
 		"probe indices -2..n+1 (a selection when n>64) and MinInt/MaxInt); after every call - and from inside every callback " +
 		"(every call when the backing array has at most 64 elements, sampled otherwise) - the full-capacity snapshot of every argument must be unchanged, and " +
 		"every returned slice is overwritten up to its full capacity and the snapshot compared again (Trim family instead: result must " +
-		"be the sub-slice s[lo:hi] of the argument, by address); Except and the Trim family are also called with the slice itself and with a sub-slice s[a:b] of it as their second argument; nest>0: callbacks re-enter the library (Fold, FoldReverse, Map, MapErr, Filter, Any, All, " +
+		"be the sub-slice s[lo:hi] of the argument, by address; GroupBy: before that every group's Values is grown by appends and written up to its capacity, one group after the other, and all groups are re-read - the parts of one result must not share memory either); Except and the Trim family are also called with the slice itself and with a sub-slice s[a:b] of it as their second argument; nest>0: callbacks re-enter the library (Fold, FoldReverse, Map, MapErr, Filter, Any, All, " +
 		"Index, Distinct, DistinctFunc, GroupBy, CountBy, Except, Trim on a second slice, results checked) while the outer helper is running; " +
-		"procs>0: the whole case runs under runtime.GOMAXPROCS(procs); one case in 16 (C14.enum: 32) is run again as four parallel independent copies; " +
+		"procs>0: the whole case runs under runtime.GOMAXPROCS(procs); flip: another goroutine changes GOMAXPROCS between 2 and 7 every 500 microseconds while the case runs; one case in 16 (C14.enum: 32) is run again as four parallel independent copies; " +
 		"non-trivial = at least 3 elements, a duplicate value and at least 2 distinct values"
 )
 
@@ -192,8 +194,15 @@ func checkCounts[K comparable](op, desc string, got []slices.Counting[K], want [
 }
 
 // Run executes every slice helper on the case.
-func Run(c Case) pbt.Outcome {
-	if c.Procs > 0 {
+func Run(c Case) pbt.Outcome { return runCase(c, nil) }
+
+// runCase: alloc (optional) provides the memory of the two arguments (the slice with its spare capacity, the unwanted/exclude list);
+// C14.guard places them next to inaccessible pages.
+func runCase(c Case, alloc func(n int) myInts) pbt.Outcome {
+	if c.Flip {
+		stop := flipProcs()
+		defer stop()
+	} else if c.Procs > 0 {
 		procsMu.Lock()
 		old := runtime.GOMAXPROCS(c.Procs)
 		defer func() {
@@ -215,7 +224,11 @@ func Run(c Case) pbt.Outcome {
 	if n == 0 && c.Nil {
 		back, s = nil, nil
 	} else {
-		back = make(myInts, n+spare)
+		if alloc != nil {
+			back = alloc(n + spare)
+		} else {
+			back = make(myInts, n+spare)
+		}
 		copy(back, c.S)
 		for i := n; i < len(back); i++ {
 			back[i] = poison
@@ -225,6 +238,10 @@ func Run(c Case) pbt.Outcome {
 	snap := append([]int(nil), back...)
 	orig := append([]int(nil), c.S...)
 	set := append(myInts(nil), c.Set...)
+	if alloc != nil && len(c.Set) > 0 {
+		set = alloc(len(c.Set))
+		copy(set, c.Set)
+	}
 	setSnap := append([]int(nil), c.Set...)
 	desc := fmt.Sprintf("s=%s spare=%d", show(orig), len(back)-n)
 	setDesc := show(setSnap)
@@ -660,6 +677,9 @@ func Run(c Case) pbt.Outcome {
 		if msg := intact(op); msg != "" {
 			return pbt.Fail("%s", msg)
 		}
+		if msg := growGroups(op, desc, groups, scribble, sameInt); msg != "" {
+			return pbt.Fail("%s", msg)
+		}
 		for _, g := range groups {
 			if msg := fresh(op, g.Values); msg != "" {
 				return pbt.Fail("%s", msg)
@@ -684,6 +704,9 @@ func Run(c Case) pbt.Outcome {
 			return pbt.Fail("%s", msg)
 		}
 		if msg := intact(op); msg != "" {
+			return pbt.Fail("%s", msg)
+		}
+		if msg := growGroups(op, desc, bgroups, scribble, sameInt); msg != "" {
 			return pbt.Fail("%s", msg)
 		}
 		for _, g := range bgroups {
